@@ -2,8 +2,18 @@
 """regenerates /verif/MANIFEST.json from harness/registry.py and the files present"""
 import json, os, sys
 here = os.path.dirname(os.path.dirname(os.path.abspath(__file__)))
-sys.path.insert(0, os.path.join(here, "harness"))
-import registry
+class registry:
+    PROPS = {}
+    NOT_APPLICABLE = {}
+    HOOK_COMMITS = []
+rd = os.path.join(here, "harness", "registry.d")
+for f in sorted(os.listdir(rd)):
+    if f.endswith(".json") and f[0] == "C":
+        registry.PROPS[f[:-5]] = json.load(open(os.path.join(rd, f)))
+if os.path.exists(os.path.join(rd, "not_applicable.json")):
+    registry.NOT_APPLICABLE = json.load(open(os.path.join(rd, "not_applicable.json")))
+if os.path.exists(os.path.join(rd, "hook_commits.json")):
+    registry.HOOK_COMMITS = json.load(open(os.path.join(rd, "hook_commits.json")))
 
 props = [json.loads(l)["id"] for l in open(os.path.join(here, "properties.jsonl"))]
 checks, na = [], []
